@@ -146,18 +146,188 @@ def _functions_of(tree):
     return fs
 
 
+PURE_BUILTINS = ("type", "isinstance", "issubclass", "callable")
+
+
+def _pure_builtin_call(x) -> bool:
+    return isinstance(x, ast.Call) and isinstance(x.func, ast.Name) and x.func.id in PURE_BUILTINS and not x.keywords \
+        and not any(isinstance(a, ast.Starred) for a in x.args)
+
+
+def split_parallel_assignments(tree) -> int:
+    """canonical form: `a, b = x, y` (names on the left, as many expressions on the right, no target read on the right, no
+    call on the right other than type / isinstance / issubclass / callable) is analysed as `a = x; b = y`"""
+    count = 0
+    for node in ast.walk(tree):
+        for field in ("body", "orelse", "finalbody"):
+            blk = getattr(node, field, None)
+            if not (isinstance(blk, list) and blk and isinstance(blk[0], ast.stmt)):
+                continue
+            i = 0
+            while i < len(blk):
+                st = blk[i]
+                if isinstance(st, ast.Assign) and len(st.targets) == 1 and isinstance(st.targets[0], ast.Tuple) \
+                        and isinstance(st.value, ast.Tuple) and len(st.targets[0].elts) == len(st.value.elts) \
+                        and all(isinstance(e, ast.Name) for e in st.targets[0].elts):
+                    tnames = {e.id for e in st.targets[0].elts}
+                    ok = len(tnames) == len(st.targets[0].elts)
+                    for v in st.value.elts:
+                        for x in ast.walk(v):
+                            if isinstance(x, ast.Name) and x.id in tnames:
+                                ok = False
+                            elif isinstance(x, ast.Call) and not _pure_builtin_call(x):
+                                ok = False
+                            elif isinstance(x, (ast.Lambda, ast.NamedExpr, ast.Await, ast.Yield, ast.YieldFrom, ast.Starred,
+                                                ast.ListComp, ast.SetComp, ast.DictComp, ast.GeneratorExp)):
+                                ok = False
+                    if ok:
+                        new = [ast.copy_location(ast.Assign(targets=[t], value=v), st)
+                               for t, v in zip(st.targets[0].elts, st.value.elts)]
+                        blk[i:i + 1] = new
+                        i += len(new)
+                        count += 1
+                        continue
+                i += 1
+    return count
+
+
+class _FoldConstants(ast.NodeTransformer):
+    """`None is None`, `not True`, `a if True else b`, `True and x` - left behind when a helper is analysed in place with a
+    constant argument"""
+    def __init__(self):
+        self.count = 0
+
+    def visit_Compare(self, node):
+        self.generic_visit(node)
+        if len(node.ops) == 1 and isinstance(node.left, ast.Constant) and isinstance(node.comparators[0], ast.Constant):
+            a, b = node.left.value, node.comparators[0].value
+            simple = lambda v: v is None or isinstance(v, (bool, int, str))
+            if simple(a) and simple(b):
+                op = node.ops[0]
+                r = None
+                if isinstance(op, ast.Is):
+                    r = (a is b) if (a is None or b is None or isinstance(a, bool) or isinstance(b, bool)) else None
+                elif isinstance(op, ast.IsNot):
+                    r = (a is not b) if (a is None or b is None or isinstance(a, bool) or isinstance(b, bool)) else None
+                elif isinstance(op, ast.Eq):
+                    r = a == b
+                elif isinstance(op, ast.NotEq):
+                    r = a != b
+                if r is not None:
+                    self.count += 1
+                    return ast.copy_location(ast.Constant(value=bool(r)), node)
+        return node
+
+    def visit_UnaryOp(self, node):
+        self.generic_visit(node)
+        if isinstance(node.op, ast.Not) and isinstance(node.operand, ast.Constant):
+            self.count += 1
+            return ast.copy_location(ast.Constant(value=not node.operand.value), node)
+        return node
+
+    def visit_IfExp(self, node):
+        self.generic_visit(node)
+        if isinstance(node.test, ast.Constant):
+            self.count += 1
+            return node.body if node.test.value else node.orelse
+        return node
+
+    def visit_BoolOp(self, node):
+        self.generic_visit(node)
+        is_and = isinstance(node.op, ast.And)
+        vals = []
+        for i, v in enumerate(node.values):
+            last = i == len(node.values) - 1
+            if isinstance(v, ast.Constant):
+                truthy = bool(v.value)
+                if truthy == is_and and not last:
+                    self.count += 1
+                    continue            # `True and x` -> x ; `False or x` -> x
+                if truthy != is_and:
+                    vals.append(v)      # `False and ..` / `True or ..` decides: the rest is never evaluated
+                    if not last:
+                        self.count += 1
+                    break
+            vals.append(v)
+        if len(vals) == 1:
+            return vals[0]
+        node.values = vals
+        return node
+
+
+def _never_none(e) -> bool:
+    if isinstance(e, ast.Constant):
+        return e.value is not None
+    if isinstance(e, (ast.JoinedStr, ast.List, ast.Tuple, ast.Dict, ast.Set, ast.ListComp, ast.DictComp, ast.SetComp)):
+        return True
+    if isinstance(e, ast.IfExp):
+        return _never_none(e.body) and _never_none(e.orelse)
+    if isinstance(e, ast.BinOp):
+        return _never_none(e.left) and _never_none(e.right)
+    return False
+
+
+def fold_nonnone_tests(tree) -> int:
+    """`x is None` / `x is not None` for a local x whose every binding in the function is a literal that is not None"""
+    count = 0
+    for fn in _functions_of(tree):
+        a = fn.args
+        params = {x.arg for x in a.posonlyargs + a.args + a.kwonlyargs}
+        if a.vararg:
+            params.add(a.vararg.arg)
+        if a.kwarg:
+            params.add(a.kwarg.arg)
+        good: Dict[str, bool] = {}
+        own = list(_walk_function(fn))
+        for n in own:
+            if isinstance(n, ast.Assign) and len(n.targets) == 1 and isinstance(n.targets[0], ast.Name):
+                t = n.targets[0].id
+                good[t] = good.get(t, True) and _never_none(n.value)
+        # any other kind of store disqualifies the name
+        simple_targets = {id(n.targets[0]) for n in own if isinstance(n, ast.Assign) and len(n.targets) == 1
+                          and isinstance(n.targets[0], ast.Name)}
+        for n in own:
+            if isinstance(n, ast.Name) and isinstance(n.ctx, (ast.Store, ast.Del)) and id(n) not in simple_targets:
+                good[n.id] = False
+            elif isinstance(n, ast.ExceptHandler) and n.name:
+                good[n.name] = False
+            elif isinstance(n, (ast.Global, ast.Nonlocal)):
+                for nm in n.names:
+                    good[nm] = False
+        names = {k for k, v in good.items() if v and k not in params}
+        if not names:
+            continue
+        for n in own:
+            if isinstance(n, ast.Compare) and len(n.ops) == 1 and isinstance(n.left, ast.Name) and n.left.id in names \
+                    and isinstance(n.ops[0], (ast.Is, ast.IsNot)) and isinstance(n.comparators[0], ast.Constant) \
+                    and n.comparators[0].value is None:
+                val = isinstance(n.ops[0], ast.IsNot)
+                # rewrite in place as `<bool> is True` is clumsy: turn the node into a comparison of constants, folded next
+                n.left = ast.copy_location(ast.Constant(value=0), n.left)
+                count += 1
+    return count
+
+
+def fold_constants(tree) -> int:
+    fold_nonnone_tests(tree)
+    f = _FoldConstants()
+    f.visit(tree)
+    return f.count
+
+
 def propagate_attribute_aliases(tree) -> int:
     """canonical form: `x = a.b.c` (a pure attribute chain; x bound exactly once in the function; the root `a` is self /
     cls / a parameter that is never rebound / a local bound exactly once) - every later read of `x` is analysed as
     `a.b.c`.  Hoisting repeated attribute reads into locals, and the reverse, are among the most common
     behaviour-preserving edits; the rules read option and field attributes, so they see the chain either way."""
     count = 0
+    _ALIASABLE = (ast.Attribute, ast.UnaryOp, ast.BoolOp, ast.Compare, ast.Name, ast.Call)
     for fn in _functions_of(tree):
         stores = {}
         nested_stores = set()
         own_nodes = list(_walk_function(fn))
         if not any(isinstance(n, ast.Assign) and len(n.targets) == 1 and isinstance(n.targets[0], ast.Name)
-                   and isinstance(n.value, (ast.Attribute, ast.UnaryOp, ast.BoolOp, ast.Compare, ast.Name)) for n in own_nodes):
+                   and isinstance(n.value, _ALIASABLE) for n in own_nodes):
             continue
         for n in own_nodes:
             if isinstance(n, ast.Name) and isinstance(n.ctx, (ast.Store, ast.Del)):
@@ -183,7 +353,9 @@ def propagate_attribute_aliases(tree) -> int:
         aliases = {}
         for n in own_nodes:
             if isinstance(n, ast.Assign) and len(n.targets) == 1 and isinstance(n.targets[0], ast.Name) \
-                    and isinstance(n.value, (ast.Attribute, ast.UnaryOp, ast.BoolOp, ast.Compare, ast.Name)):
+                    and isinstance(n.value, _ALIASABLE):
+                if isinstance(n.value, ast.Call) and not _pure_builtin_call(n.value):
+                    continue
                 t = n.targets[0].id
                 if t in params or stores.get(t) != 1 or t in nested_stores:
                     continue
@@ -192,7 +364,11 @@ def propagate_attribute_aliases(tree) -> int:
                 roots = set()
                 for x in ast.walk(n.value):
                     if isinstance(x, ast.Name):
-                        roots.add(x.id)
+                        if not (x.id in PURE_BUILTINS and isinstance(x.ctx, ast.Load)) and x.id not in ("str", "int", "float",
+                                "bool", "list", "tuple", "dict", "set", "bytes", "type", "object", "Decimal"):
+                            roots.add(x.id)
+                    elif _pure_builtin_call(x) or isinstance(x, ast.Tuple):
+                        pass
                     elif not isinstance(x, (ast.Attribute, ast.Constant, ast.UnaryOp, ast.BoolOp, ast.Compare, ast.expr_context,
                                             ast.boolop, ast.unaryop, ast.cmpop)):
                         pure = False
@@ -432,6 +608,7 @@ class ModuleInfo:
         self.relpath = relpath
         self.source = source
         self.tree = ast.parse(source, filename=path)
+        split_parallel_assignments(self.tree)
         self.propagated_aliases = propagate_attribute_aliases(self.tree)
         self.expanded_callees = expand_conditional_callees(self.tree)
         self.inlined_returns = inline_return_temporaries(self.tree)
@@ -528,6 +705,7 @@ class Repo:
         if self.inlined:
             # the bindings made by the inliner are aliases / temporaries like any other
             for m in self.modules.values():
+                fold_constants(m.tree)
                 propagate_attribute_aliases(m.tree)
                 inline_return_temporaries(m.tree)
                 split_conditional_returns(m.tree)
